@@ -155,9 +155,11 @@ enum GenFault {
     Exit1,
     /// reads the request, exits 0 without a reply
     EmptyReply,
+    /// reads the request, sends a valid reply, then is killed by a signal (no exit status at all)
+    SignalAfterReply,
 }
 
-const GEN_FAULTS: [GenFault; 3] = [GenFault::Missing, GenFault::Exit1, GenFault::EmptyReply];
+const GEN_FAULTS: [GenFault; 4] = [GenFault::Missing, GenFault::Exit1, GenFault::EmptyReply, GenFault::SignalAfterReply];
 
 struct Case {
     class: Class,
@@ -200,7 +202,7 @@ fn case_of(idx: u64) -> Case {
 
 /// (number of generators, index of the failing one)
 const FAIL_POSITIONS: [(usize, usize); 6] = [(1, 0), (2, 0), (2, 1), (3, 0), (3, 1), (3, 2)];
-const RADICES_GF: [u64; 6] = [6, 3, 2, 3, 2, 2];
+const RADICES_GF: [u64; 6] = [6, 4, 2, 3, 2, 2];
 
 fn case_of_gf(idx: u64) -> Case {
     let d = decode_index(idx, &RADICES_GF);
@@ -270,6 +272,7 @@ fn scenario(c: &Case) -> Scenario {
             Some((f, GenFault::Missing)) if f == i => Install::Missing,
             Some((f, GenFault::Exit1)) if f == i => Install::Script(Script(vec![Step::ReadAll, Step::Stdout(reply), Step::Exit(1)])),
             Some((f, GenFault::EmptyReply)) if f == i => Install::Script(Script(vec![Step::ReadAll, Step::Exit(0)])),
+            Some((f, GenFault::SignalAfterReply)) if f == i => Install::Script(Script(vec![Step::ReadAll, Step::Stdout(reply), Step::Kill(11)])),
             _ => Install::Script(Script(vec![Step::ReadAll, Step::Stdout(reply), Step::Exit(0)])),
         };
         gens.push(Gen { name: format!("g{i}"), install });
